@@ -900,6 +900,8 @@ func evalFunctionCall(node *jparse.FunctionCallNode, data reflect.Value, env *en
 		fn = &own
 	}
 
+	verifGate("set-ctx", fn, data)
+
 	if setter, ok := fn.(nameSetter); ok {
 		if sym, ok := node.Func.(*jparse.VariableNode); ok {
 			setter.SetName(sym.Name)
@@ -920,6 +922,8 @@ func evalFunctionCall(node *jparse.FunctionCallNode, data reflect.Value, env *en
 
 		argv[i] = v
 	}
+
+	verifGate("invoke", fn, data)
 
 	return fn.Call(argv)
 }
